@@ -411,21 +411,12 @@ func (r *RateLimiterRules) Rule(
 		return NewRateLimiter(rule.Limit, rule.Burst, checksum, t, desc), true
 	}
 
-	if hint.ClientID != "" && (r.clientid != nil && l.Type() == "clientid") &&
-		l.UpdatedAt() >= r.clientid.UpdatedAt() {
-		return l, false
-	}
+	// NOTE the rule is always found by the precedence, client id > net > node >
+	// suffrage > default map > default; the rate limiter is kept only when it
+	// was made by the same rule.
+	checksum, rule, t, desc, _ := r.rule(addr, handler, hint, "", 0)
 
-	if r.nets != nil && l.Type() == "net" && l.UpdatedAt() >= r.nets.UpdatedAt() {
-		return l, false
-	}
-
-	if i, isnew, found := r.ruleByNode(addr, handler, hint, l); found {
-		return i, isnew
-	}
-
-	checksum, rule, t, desc, refreshed := r.rule(addr, handler, hint, l.Type(), l.UpdatedAt())
-	if !refreshed {
+	if l.Type() == t && l.Checksum() == checksum && l.Limit() == rule.Limit && l.Burst() == rule.Burst {
 		return l, false
 	}
 
@@ -597,37 +588,6 @@ func (r *RateLimiterRules) IsValid([]byte) error {
 	}
 
 	return nil
-}
-
-func (r *RateLimiterRules) ruleByNode(
-	addr net.Addr,
-	handler string,
-	hint RateLimitRuleHint,
-	l *RateLimiter,
-) (_ *RateLimiter, isnew, found bool) {
-	var node base.Address
-	if hint.Node != nil {
-		node = hint.Node
-	}
-
-	if node != nil && r.nodes != nil && l.Type() == "node" && l.UpdatedAt() >= r.nodes.UpdatedAt() {
-		return l, false, true
-	}
-
-	if node != nil && r.suffrage != nil && l.Type() == "suffrage" && l.UpdatedAt() >= r.suffrage.UpdatedAt() {
-		switch st, exists, err := r.IsInConsensusNodesFunc(); {
-		case err != nil:
-		case !exists(node):
-		case st.String() != l.Checksum():
-			if checksum, rule, desc, found := r.suffrage.Rule(addr, handler, hint); found {
-				return l.Update(rule.Limit, rule.Burst, checksum, "suffrage", desc), false, true
-			}
-		default:
-			return l, false, true
-		}
-	}
-
-	return l, false, false
 }
 
 type RateLimiterRuleSet interface {
@@ -891,7 +851,8 @@ func (rs ClientIDRateLimiterRuleSet) Rule(
 
 	l, found := rs.rule(hint.ClientID, handler)
 
-	return "", l, fmt.Sprintf(`{"client_id":%q}`, hint.ClientID), found
+	// NOTE checksum is client id
+	return hint.ClientID, l, fmt.Sprintf(`{"client_id":%q}`, hint.ClientID), found
 }
 
 type addrPool struct {
